@@ -1,0 +1,21 @@
+//go:build verif
+
+package cypher
+
+// Contracts for the govc verifier (/verif/DESIGN.md). Package clause and comments only.
+//
+// The copy() contracts of this package are derived from the struct definitions on every run (C11). The
+// contracts below are the C05 kernel: a map literal is always enumerated in the sorted order of its keys, so
+// nothing the translator or the emitter produce from it depends on Go's randomised map iteration order.
+
+//@ func (s MapLiteral) sortedKeys() []string
+//@   nomod
+//@   ensures keys: set(result) == dom(s)
+//@   ensures sorted: forall i int; j int :: 0 <= i && i < j && j < len(result) ==> !(result[j] < result[i])
+//@   ensures own: len(result) > 0 ==> fresh(result.arr)
+//@   loop 0
+//@     invariant collected: set(keys) == visited && (forall k string :: k in visited ==> k in s)
+//@     invariant own: keys.arr != nil && fresh(keys.arr) && keys.off == 0
+
+//@ func (s MapLiteral) ForEachItem(delegate func(key string, value Expression) error) error
+//@   nosafety
